@@ -22,8 +22,8 @@ insert(state,…), append, extractBigInt / insertBigInt (≤ 64 bit path and wor
 Literals: `parseBitVector` on `x` / `o` / `b` literals of any length with or without explicit width equals the grammar's bit array
 (`literal_digits_spec`, `parseBitVector_digits_spec`); `d` literals denote their number in `Log2C(n+1)` bits or the explicit width
 (`decimal_literal_spec`); binary text round trip.
-Covered by correspondence only (driver compares model AND spec with the implementation, no theorem yet):
-string (`s`) literals and formatting (`operator<<` binary / hex).
+`parseBitVector_spec`: for EVERY input string the parser's result is the grammar specification `specLiteral` (all five literal kinds, all
+rejections). Covered by correspondence only (driver compares the model with the implementation, no theorem): formatting (`operator<<` binary / hex).
 -/
 namespace Gatery.C18.Props
 open Gatery.C18 Gatery.Gen
@@ -196,6 +196,14 @@ theorem decimal_literal_spec (s : String) (width : Option Nat) (num : List Char)
 
 example : resultBits (parseBitVector "8d37") = some ((List.range 8).map fun i => some (Nat.testBit 37 i)) := by
   rw [decimal_literal_spec "8d37" (some 8) ['3', '7'] (by decide)]; decide
+
+/-- **Every literal.** For every input string, `parseBitVector` (optional width, then `s` / `x` / `o` / `b` / `d` literal; container
+    operations on words) returns exactly what the grammar specification `specLiteral` denotes — a bit array with undefined digits, or a
+    rejection (malformed text, width too small, decimal out of range). -/
+theorem parseBitVector_spec (s : String) : resultBits (parseBitVector s) = specLiteral s := Gatery.C18.parseBitVector_spec s
+
+example : specLiteral "12sAb" = none ∧ specLiteral "20sAb" = some ((List.range 20).map fun i => some (decide (i < 16) && (['A', 'b'].getD (i / 8) ' ').toNat.testBit (i % 8))) := by
+  decide
 
 /-- Formatting then parsing (grammar level): the binary text of any four-state vector, read as a `b` literal, denotes that vector. -/
 theorem binary_text_round_trip (bits : List (Option Bool)) :
